@@ -137,12 +137,26 @@ pub struct BudgetCase {
     pub chunking: Chunking,
     /// counters to exercise (all by default)
     pub counters: Vec<Counter>,
+    /// how the documents are separated: 0 `---`, 1 `...` only (every later document starts implicitly),
+    /// 2 `...` and `---`, 3 a leading `---` as well
+    #[serde(default)]
+    pub sep: u8,
 }
 
 pub fn stream_text(docs: &[String]) -> String {
+    stream_text_sep(docs, 0)
+}
+
+pub fn stream_text_sep(docs: &[String], sep: u8) -> String {
     let mut s = String::new();
     for (i, d) in docs.iter().enumerate() {
         if i > 0 {
+            match sep {
+                1 => s.push_str("...\n"),
+                2 | 3 => s.push_str("...\n---\n"),
+                _ => s.push_str("---\n"),
+            }
+        } else if sep == 3 {
             s.push_str("---\n");
         }
         s.push_str(d);
@@ -565,7 +579,7 @@ pub fn exec(c: &BudgetCase, st: &mut Stats) -> Vec<Viol> {
     }
 
     // ---------------- stream: AllContent totals ----------------
-    let stext = stream_text(&c.docs);
+    let stext = stream_text_sep(&c.docs, c.sep);
     let ms = model::count(&stext, true);
     if let Ok(ms) = &ms
         && c.docs.len() > 1
@@ -616,8 +630,8 @@ pub fn exec(c: &BudgetCase, st: &mut Stats) -> Vec<Viol> {
         let alone: Vec<String> = vec![d.clone(), tail.clone()];
         let mut full: Vec<String> = c.docs.clone();
         full.push(tail);
-        let alone_text = stream_text(&alone);
-        let full_text = stream_text(&full);
+        let alone_text = stream_text_sep(&alone, c.sep);
+        let full_text = stream_text_sep(&full, c.sep);
         // position of the document under test among the items: every earlier document yields exactly one
         // item unless it is empty / null-like (the generator produces none of those)
         let pos = c.under_test;
@@ -768,8 +782,12 @@ impl G<'_> {
         let k = self.k();
         match self.rng.below(12) {
             0 | 1 => {
-                // anchored scalar
-                let w = self.word();
+                // anchored scalar (now and then an empty one: plain nothing, or a quoted empty string)
+                let w = match self.rng.below(8) {
+                    0 => String::new(),
+                    1 => "\"\"".to_string(),
+                    _ => self.word(),
+                };
                 let a = self.new_anchor(false);
                 out.push_str(&format!("{pad}{k}: &{a} {w}\n"));
             }
@@ -786,6 +804,10 @@ impl G<'_> {
                 for _ in 0..n {
                     let kk = self.k();
                     items.push(format!("{kk}: {}", self.word()));
+                }
+                // a quoted `<<` is an ordinary key, also when the mapping is replayed through an alias
+                if self.rng.chance(1, 4) {
+                    items.push(format!("{}: {}", self.rng.pick(&["\"<<\"", "'<<'"]), self.word()));
                 }
                 let a = self.new_anchor(true);
                 out.push_str(&format!("{pad}{k}: &{a} {{{}}}\n", items.join(", ")));
@@ -886,8 +908,8 @@ pub fn gen_doc(rng: &mut Rng, size: usize) -> String {
 pub fn kind_doc(kind: usize, rng: &mut Rng) -> String {
     match kind {
         0 => "a: 1\n".to_string(),
-        1 => "x: &p [1, 2, 3]\ny: *p\nz: [*p, *p]\n".to_string(),
-        2 => "base: &b {u: 1, v: 2}\nm1: &m\n  <<: *b\n  w: 3\nm2:\n  <<: *b\nm3: *m\nm4: [*m, {<<: *m, z: 1}]\n".to_string(),
+        1 => "x: &p [1, 2, 3]\ny: *p\nz: [*p, *p]\nn: &n\nm: *n\nq: &e \"\"\n".to_string(),
+        2 => "base: &b {u: 1, v: 2, \"<<\": q}\nm1: &m\n  <<: *b\n  w: 3\nm2:\n  <<: *b\nm3: *m\nm4: [*m, {<<: *m, z: 1}]\n".to_string(),
         3 => "d: [[[[[deep]]]]]\n".to_string(),
         4 => format!("s: \"{}\"\n", "é".repeat(rng.range(50, 300))),
         // type-level failures that leave containers open when recovery starts
@@ -961,6 +983,8 @@ pub fn gen_case(tier: Tier, seed: u64, idx: u64) -> Case {
         under_test,
         chunking,
         counters: COUNTERS.to_vec(),
+        // (documents that themselves contain a marker line keep the plain `---` form)
+        sep: if text.contains("...") { 0 } else { (idx % 4) as u8 },
     })
 }
 
